@@ -8,7 +8,7 @@ with a 1e-9 relative guard band on the limit (strict oracle => accepted => loose
 """
 import math
 
-from symx import env
+from symx import env, core
 from symx.core import le, lt, ge, gt, eq, ne, and_, or_, implies, not_, iff, sym_max, sym_abs, ite
 from symx.run import Job
 from props import simlib
@@ -181,6 +181,10 @@ def h_linear(cx, angles, Aspec, T, sym_coeff):
         cx.check("algorithm_linear_accept=>phase_aware_definition", loose)
     else:
         cx.tag("alg_linear_rejects")
+    # the two linear checks are the same test (sum of |coefficient| x current per constraint and PERIOD against limit + tolerance)
+    cx.check("linear:algorithm==network", b_lin == b_alin, note="network %s algorithm %s" % (b_lin, b_alin))
+    lin_def = and_(*[le(sum(abs(A[i][j]) * X[j][t] for j in range(n)), limits[i] + core.sym_max(1e-5, 1e-7 * limits[i])) for i in range(m) for t in range(T)])
+    cx.check("linear:network==sum|a|x<=limit+tol", iff(lin_def, b_lin))
     cx.observe("lin", [b_lin, b_alin])
 
 
@@ -249,7 +253,7 @@ def jobs(tier):
         js.append(Job("defaults_omitted[ang=%s,A=%s,T=%d]" % (ang, A, T), h_defaults_and_omitted, dict(angles=ang, Aspec=A, T=T), functions=FUNCS,
                       expect_tags=("interface_mapping:accepted", "interface_mapping:rejected"), max_paths=5000, timeout=2400,
                       bounds=dict(stations=len(ang), constraints=len(A), periods=T, tolerances="network defaults 1e-5 / 1e-7"), cost=4 ** (len(A) * T)))
-    lin = [((30, 150), MIXED[2][0], 1, False), ((0, 120), ((0, 0),), 1, True), ((30, -90, 150), MIXED[3][2], 1, False)] if q else \
+    lin = [((30, 150), MIXED[2][0], 1, False), ((0, 120), ((0, 0),), 1, True), ((30, -90, 150), MIXED[3][2], 1, False), ((30, 150), MIXED[2][1], 2, False)] if q else \
         [(ang, A, 2, False) for ang in ((30, 150), (0, 120), (0, 0)) for A in MIXED[2]] + [((0, 120), ((0, 0),), 1, True), ((30, -90), ((0, 0),), 2, True)] + [((30, -90, 150), A, 2, False) for A in MIXED[3]]
     for ang, A, T, sc in lin:
         js.append(Job("linear[ang=%s,A=%s,T=%d]" % (ang, "sym" if sc else A, T), h_linear, dict(angles=ang, Aspec=A, T=T, sym_coeff=sc), functions=FUNCS,
